@@ -16,7 +16,7 @@ for mf in sorted(glob.glob('/verif/seeded/*/meta.json')):
     for p in props:
         if p not in claimed:
             continue
-        r = subprocess.run(['/verif/tools/try_mutant.sh', d + '/patch.diff', p, tier], capture_output=True, text=True)
+        r = subprocess.run(['/verif/tools/try_mutant_wt.sh', d + '/patch.diff', p, tier], capture_output=True, text=True)
         line = [l for l in r.stdout.splitlines() if l.startswith('exit=')]
         rc = int(line[0].split('=')[1]) if line else -1
         det.append(dict(check=p, tier=tier, exit=rc, detected=(rc == 1)))
